@@ -436,6 +436,22 @@ impl Sim {
         })
     }
 
+    /// connect `n` good blocks in one request (fills the remembered-header window)
+    pub fn add_blocks(&mut self, n: u64) -> (Outcome, usize) {
+        self.txn(|s| {
+            let node = s.node();
+            let mut tracker = node.get_tracker();
+            for _ in 0..n {
+                let tip = tracker.tip().clone();
+                let (header, proof) = make_testnet_header(&tip, tracker.height());
+                tracker.add_block(header, proof).map_err(|e| Status::internal(format!("{:?}", e)))?;
+                s.prev_tips.push(tip);
+            }
+            node.get_persister().update_tracker(&node.get_id(), &tracker).unwrap();
+            Ok(())
+        })
+    }
+
     pub fn remove_block(&mut self, good: bool) -> (Outcome, usize) {
         self.txn(|s| {
             let node = s.node();
@@ -611,6 +627,7 @@ pub fn exec_op(sim: &mut Sim, op: &str) -> (Outcome, usize) {
         ["forget", w] => sim.forget(num(w) as u64),
         ["hb"] => sim.heartbeat(),
         ["blk+", g] => sim.add_block(*g == "g"),
+        ["blkn", n] => sim.add_blocks(num(n) as u64),
         ["blk-", g] => sim.remove_block(*g == "g"),
         ["restart"] => sim.restart(),
         _ => (Outcome::Err("bad-op".into()), 0),
@@ -642,6 +659,14 @@ pub fn gen_ops(rng: &mut Rng, len: usize) -> Vec<String> {
                 for _ in 0..rng.range(2, 5) {
                     ops.push(format!("ks {}", *rng.pick(&[1000u64, 2000, 5_000_000])));
                 }
+                continue;
+            }
+            9 if ops.len() < 4 => {
+                // fill the remembered-header window, then refused and accepted block requests at its edge
+                ops.push(format!("blkn {}", *rng.pick(&[96u64, 97, 98, 100, 120])));
+                ops.push(format!("blk+ {}", if rng.chance(1, 2) { "b" } else { "g" }));
+                ops.push("blk- b".to_string());
+                ops.push("blk- g".to_string());
                 continue;
             }
             8 if ops.len() < 6 => {
